@@ -355,7 +355,11 @@ func (s *Stack) PopSigElements() ([][]byte, error) {
 			elems[k] = b
 		}
 	default:
-		num = int(item.BigInt().Int64())
+		bi := item.BigInt()
+		if !bi.IsInt64() {
+			return nil, fmt.Errorf("wrong number of elements: %s", bi)
+		}
+		num = int(bi.Int64())
 		if num < 1 || num > s.Len() {
 			return nil, fmt.Errorf("wrong number of elements: need %d, have %d", num, s.Len())
 		}
